@@ -300,6 +300,7 @@ func genC06(t *rapid.T) *Scenario {
 		sc.Script = append(append(pre, genScript(t, nIn, np, false, tick, 4)...), Move{K: "cancel"})
 	}
 	sc.NoFinish = rapid.IntRange(0, 3).Draw(t, "nofinish") == 0
+	sc.PreCancel = rapid.IntRange(0, 9).Draw(t, "precancel") == 0 // built on a context that is cancelled already
 	return sc
 }
 
@@ -337,6 +338,7 @@ func genC08(t *rapid.T) *Scenario {
 		}
 		sc.Script = append(sc.Script, m)
 	}
+	sc.PreCancel = rapid.IntRange(0, 19).Draw(t, "precancel") == 0
 	sc.Gated = rapid.IntRange(0, 3).Draw(t, "warm") == 0 // a pipe of another element type ran before (shared state between instantiations)
 	// how the stream ends: by class
 	switch rapid.SampledFrom([]string{"harness", "harness", "cancel-with-backlog", "racing-sends", "racing-sends", "parked-senders", "parked-senders", "close-with-backlog"}).Draw(t, "endclass") {
@@ -540,6 +542,7 @@ func genC09(t *rapid.T) *Scenario {
 		sc.Script = append(sc.Script, genForkScript(t, np, false, 6)...)
 	}
 	sc.NoFinish = rapid.IntRange(0, 4).Draw(t, "nofinish") == 0
+	sc.PreCancel = rapid.IntRange(0, 11).Draw(t, "precancel") == 0
 	if len(sc.Script) > 1 && sc.Script[0].K == "burst" && sc.Script[0].M == 16 && sc.Script[len(sc.Script)-1].K != "release" {
 		sc.NoFinish = sc.NoFinish || rapid.Bool().Draw(t, "nobodyReceives") // simultaneous-release class
 	}
@@ -597,5 +600,6 @@ func genC10(t *rapid.T) *Scenario {
 	if long {
 		sc.Gated = rapid.Bool().Draw(t, "gatedLong") // ungated: the workers race each other for the buffered values
 	}
+	sc.PreCancel = rapid.IntRange(0, 15).Draw(t, "precancel") == 0
 	return sc
 }
